@@ -26,7 +26,10 @@ import (
 	"fmt"
 	"math/big"
 	"math/rand"
+	"os"
+	"path/filepath"
 	"reflect"
+	"regexp"
 	"sort"
 	"strconv"
 	"strings"
@@ -43,6 +46,7 @@ import (
 	"github.com/protolambda/zrnt/eth2/configs"
 	"github.com/protolambda/ztyp/codec"
 	"github.com/protolambda/ztyp/tree"
+	"gopkg.in/yaml.v3"
 
 	"verifharness/internal/hreg"
 )
@@ -543,6 +547,30 @@ func gen(o hreg.Opts, w *bufio.Writer) error {
 		st.Add("sig-scenario", scenario)
 		st.Add("sig-fork", forkNames[right])
 		line("sig", "%s %d %s %s %s %d %d %s %d %d %d %d %s", s, slot, hx(gvr), hx(gvrSign), hx(root), vIdx, dIdx, hx(dGvr), penv, prop, signer, pub, kind)
+	}
+	// --- a user's own configuration files: forks at epoch 0, equal epochs, never, custom versions and constants
+	for i := 0; i < o.Pick(40, 600); i++ {
+		s := randSched(rng, st, true)
+		if s.spe == 0 {
+			s.spe = 8
+		}
+		if i%3 == 0 { // the first k forks at genesis
+			k := 1 + rng.Intn(6)
+			for j := 0; j < k; j++ {
+				s.e[j] = 0
+			}
+		}
+		if i%7 == 0 {
+			s.spe = uint64(1 + rng.Intn(64))
+		}
+		zeros := 0
+		for _, e := range s.e {
+			if e == 0 {
+				zeros++
+			}
+		}
+		st.Add("cfgfile-forks-at-genesis", strconv.Itoa(zeros))
+		line("cfgfile", "%s %d,%d,%d", s, 1+rng.Intn(60), rng.Intn(100000), 1+rng.Intn(64))
 	}
 	// --- the public constructors of eth2/configs, customisation of what they return, and the built-ins again
 	pick := []string{"mainnet", "minimal"}
@@ -1217,6 +1245,75 @@ func runSpecAPI(names []string, legacy string, mask uint64) string {
 		got, sentinelDump(configs.Mainnet), sentinelDump(configs.Minimal), sentinelDump(s4))
 }
 
+var reYamlLine = regexp.MustCompile(`(?m)^([A-Z0-9_]+):.*$`)
+
+// setYaml replaces the value of KEY in a `KEY: value` text (the key must be present).
+func setYaml(text, key, val string) (string, bool) {
+	found := false
+	out := reYamlLine.ReplaceAllStringFunc(text, func(l string) string {
+		if strings.HasPrefix(l, key+":") {
+			found = true
+			return key + ": " + val
+		}
+		return l
+	})
+	return out, found
+}
+
+// runCfgFile: a user's own configuration. A config YAML and a phase0 preset YAML are WRITTEN as text (the
+// published minimal files with the schedule S, a custom SLOTS_PER_EPOCH and three other constants replaced),
+// loaded through configs.SpecOptions{Config: path, Phase0Preset: path, …}.Spec() exactly as a user would, and
+// read back: the schedule as loaded, the three constants, and ForkVersion at epochs 0 and 1.
+func runCfgFile(s sched, extra [3]uint64) string {
+	dir, err := os.MkdirTemp("", "c14cfg-")
+	if err != nil {
+		return "harness-io"
+	}
+	defer os.RemoveAll(dir)
+	cb, err1 := yaml.Marshal(configs.Minimal.Config)
+	pb, err2 := yaml.Marshal(configs.Minimal.Phase0Preset)
+	if err1 != nil || err2 != nil {
+		return "harness-io"
+	}
+	ctext, ptext := string(cb), string(pb)
+	ok := true
+	set := func(text *string, k, v string) {
+		t, f := setYaml(*text, k, v)
+		*text, ok = t, ok && f
+	}
+	vkeys := []string{"GENESIS", "ALTAIR", "BELLATRIX", "CAPELLA", "DENEB", "ELECTRA", "FULU"}
+	for i, k := range vkeys {
+		set(&ctext, k+"_FORK_VERSION", "0x"+hex.EncodeToString(s.v[i][:]))
+		if i > 0 {
+			set(&ctext, k+"_FORK_EPOCH", strconv.FormatUint(s.e[i-1], 10))
+		}
+	}
+	set(&ctext, "SECONDS_PER_SLOT", strconv.FormatUint(extra[0], 10))
+	set(&ctext, "MIN_GENESIS_ACTIVE_VALIDATOR_COUNT", strconv.FormatUint(extra[1], 10))
+	set(&ptext, "SLOTS_PER_EPOCH", strconv.FormatUint(s.spe, 10))
+	set(&ptext, "MAX_COMMITTEES_PER_SLOT", strconv.FormatUint(extra[2], 10))
+	if !ok {
+		return "harness-io"
+	}
+	cpath, ppath := filepath.Join(dir, "config.yaml"), filepath.Join(dir, "phase0.yaml")
+	if os.WriteFile(cpath, []byte(ctext), 0o644) != nil || os.WriteFile(ppath, []byte(ptext), 0o644) != nil {
+		return "harness-io"
+	}
+	opts := &configs.SpecOptions{Config: cpath, Phase0Preset: ppath, AltairPreset: "minimal", BellatrixPreset: "minimal",
+		CapellaPreset: "minimal", DenebPreset: "minimal", ElectraPreset: "minimal"}
+	sp, err := opts.Spec()
+	if err != nil {
+		return "err"
+	}
+	got := sched{spe: uint64(sp.SLOTS_PER_EPOCH),
+		v: [7][4]byte{sp.GENESIS_FORK_VERSION, sp.ALTAIR_FORK_VERSION, sp.BELLATRIX_FORK_VERSION, sp.CAPELLA_FORK_VERSION, sp.DENEB_FORK_VERSION, sp.ELECTRA_FORK_VERSION, sp.FULU_FORK_VERSION},
+		e: [6]uint64{uint64(sp.ALTAIR_FORK_EPOCH), uint64(sp.BELLATRIX_FORK_EPOCH), uint64(sp.CAPELLA_FORK_EPOCH), uint64(sp.DENEB_FORK_EPOCH), uint64(sp.ELECTRA_FORK_EPOCH), uint64(sp.FULU_FORK_EPOCH)}}
+	fv0 := sp.ForkVersion(0)
+	fv1 := sp.ForkVersion(common.Slot(s.spe)) // first slot of epoch 1 of the WRITTEN configuration
+	return fmt.Sprintf("ok %s %d,%d,%d fv0=%s fv1=%s", got, uint64(sp.SECONDS_PER_SLOT), uint64(sp.MIN_GENESIS_ACTIVE_VALIDATOR_COUNT),
+		uint64(sp.MAX_COMMITTEES_PER_SLOT), hex.EncodeToString(fv0[:]), hex.EncodeToString(fv1[:]))
+}
+
 func exec(o hreg.Opts, sc *bufio.Scanner, w *bufio.Writer) error {
 	gc := goConstTable()
 	for sc.Scan() {
@@ -1307,6 +1404,21 @@ func exec(o hreg.Opts, sc *bufio.Scanner, w *bufio.Writer) error {
 					ts = append(ts, t)
 				}
 				return runDom(s, gvr, ts)
+			case f[0] == "cfgfile" && len(f) == 3:
+				s, ok := parseSched(f[1])
+				ex := strings.Split(f[2], ",")
+				if !ok || len(ex) != 3 || s.spe == 0 || !s.monotone() {
+					return "bad-op"
+				}
+				var extra [3]uint64
+				for i := range extra {
+					v, err := strconv.ParseUint(ex[i], 10, 64)
+					if err != nil {
+						return "bad-op"
+					}
+					extra[i] = v
+				}
+				return runCfgFile(s, extra)
 			case f[0] == "specapi" && len(f) == 4:
 				names := strings.Split(f[1], ",")
 				mask, err := strconv.ParseUint(f[3], 10, 64)
